@@ -24,6 +24,7 @@
 //       A,g,k,d  the payload of a Broadcast call is increased by d (for every recipient)
 //       D,g,k    a Broadcast call sends nothing
 //       N,g,k,v  after a Broadcast call it additionally broadcasts v (several N,g,k: in order)
+//       M,g,k,m,p  the payload of a Broadcast call is multiplied by m modulo p
 //                (g,k) addresses the party's own Broadcast calls: g = number of end markers (payload n)
 //                it has broadcast before, k = number of calls since the last of them
 //   plus `prop.dkg.*` summary lines for the direct predicates.
@@ -111,6 +112,7 @@ typedef std::pair<int, int> IP;
 struct Dev {
 	bool sfb = false; long silent = -1;
 	std::map<IP, std::string> po, pi;
+	std::map<IP, std::pair<std::string, std::string> > bm;
 	std::map<IP, std::string> ba; std::set<IP> bd; std::map<IP, std::vector<std::string> > bi;
 	std::string text;
 	void item(const std::string &s) { if (!text.empty()) text += ";"; text += s; }
@@ -119,6 +121,7 @@ struct Dev {
 	void O(int j, int k, const std::string &d) { po[IP(j, k)] = d; item("O," + std::to_string(j) + "," + std::to_string(k) + "," + d); }
 	void I(int j, int k, const std::string &d) { pi[IP(j, k)] = d; item("I," + std::to_string(j) + "," + std::to_string(k) + "," + d); }
 	void A(int g, int k, const std::string &d) { ba[IP(g, k)] = d; item("A," + std::to_string(g) + "," + std::to_string(k) + "," + d); }
+	void M(int g, int k, const std::string &m, const std::string &p) { bm[IP(g, k)] = std::make_pair(m, p); item("M," + std::to_string(g) + "," + std::to_string(k) + "," + m + "," + p); }
 	void D(int g, int k) { bd.insert(IP(g, k)); item("D," + std::to_string(g) + "," + std::to_string(k)); }
 	void N(int g, int k, const std::string &v) { bi[IP(g, k)].push_back(v); item("N," + std::to_string(g) + "," + std::to_string(k) + "," + v); }
 	std::string str() const { return text.empty() ? "-" : text; }
@@ -222,6 +225,8 @@ class tap_unicast : public aiounicast
 				Z v; mpz_set(v, m[4]);
 				auto it = cx->dev.ba.find(k);
 				if (it != cx->dev.ba.end()) { Z d(it->second.c_str()); mpz_add(v, v, d); }
+				auto im = cx->dev.bm.find(k);
+				if (im != cx->dev.bm.end()) { Z f(im->second.first.c_str()), pm(im->second.second.c_str()); mpz_mul(v, v, f); mpz_mod(v, v, pm); }
 				std::vector<mpz_srcptr> mm(m); mm[4] = v;
 				vc_activity();
 				ok = inner->Send(mm, i_in, timeout);
@@ -558,6 +563,9 @@ static void make_case(Case &c, uint64_t seed, uint64_t idx, bool thorough, const
 	switch (g.below(6)) { case 0: mpz_set_ui(c.msg, 0); break; case 1: mpz_set_ui(c.msg, 1); break; case 2: mpz_sub_ui(c.msg, c.q, 1); break; case 3: mpz_set(c.msg, c.q); break; default: gen_bits(c.msg, g, 200); break; }
 	c.dev1.assign(c.n, Dev()); c.dev2.assign(c.n, Dev());
 	int fmax = std::min(c.t, c.trbc); if (2 * c.t >= c.n) fmax = 0;
+	// `--fall`: up to t deviating parties even where the reliable broadcast is only (n-1)/3-resilient (use
+	// with scripts whose parties follow the broadcast protocol or are silent from the start)
+	if (o.has("--fall") && 2 * c.t < c.n) fmax = c.t;
 	int f = 0;
 	if (fmax > 0 && idx != 2 && idx != 3) f = (g.below(4) == 0) ? (int)g.below(fmax + 1) : fmax;
 	if (o.val("--f") != "") f = std::min(fmax, atoi(o.val("--f").c_str()));
@@ -586,8 +594,26 @@ static void make_case(Case &c, uint64_t seed, uint64_t idx, bool thorough, const
 			default: d2.A(3, 0, zs(c.q)); c.tag += ":sign-si-plusq"; break;
 			}
 		} else if (c.kind == K_GEN) {
-			int how = force >= 0 ? force : (int)g.below(12);
+			int how = force >= 0 ? force : (int)g.below(13);
+			if (how == 12 && !(n == 2 * t + 1 && t >= 1)) how = 7;
+			if (force == 12 && fi > 0) { d.Zk(0); c.tag += ":silent0"; continue; }   // the other faulty parties never speak
 			switch (how) {
+			case 12: {
+				// Feldman commitments of f + delta, delta = c (X-x_1)...(X-x_t): consistent with the shares of t
+				// chosen parties, inconsistent for everybody else
+				std::vector<int> keep; for (int w = 0; w < n && (int)keep.size() < t; w++) if (w != me && std::find(faulty.begin(), faulty.end(), w) == faulty.end()) keep.push_back(w);
+				std::vector<Z> co(t + 1); mpz_set_ui(co[0], 1 + g.below(1000));
+				for (size_t r = 0; r < keep.size(); r++) {          // multiply by (X - (keep[r]+1))
+					std::vector<Z> nw(t + 1);
+					for (int k = 0; k <= t; k++) {
+						Z sub; mpz_mul_ui(sub, co[k], (unsigned long)(keep[r] + 1));
+						if (k > 0) mpz_set(nw[k], co[k - 1]);
+						mpz_sub(nw[k], nw[k], sub); mpz_mod(nw[k], nw[k], c.q);
+					}
+					co = nw;
+				}
+				for (int k = 0; k <= t; k++) { Z f; mpz_powm(f, c.g, co[k], c.p); d.M(2, k, zs(f), zs(c.p)); }
+				c.tag += ":craftedA"; break; }
 			case 0: d.S(); c.tag += ":sfb"; break;
 			case 1: d.Zk((long)g.below(3 * (t + 1) + 2 * n + 4)); c.tag += ":silent"; break;
 			case 2: d.O(honest_other(), (int)g.below(2), g.below(2) ? "1" : "-1"); c.tag += ":wrongshare"; break;
